@@ -217,7 +217,7 @@ def run_query(builder, q, vars_, tier, workroot):
                 res.assumptions.append('%s: body written in the spec prelude (trusted model of a function that is not in the dump)' % s)
             elif s not in replace:
                 res.reason = 'bodiless function %s is not replaced by a contract' % s; return res
-        timeout = q.timeout or (180 if tier == 'quick' else 900)
+        timeout = q.timeout or (600 if tier == 'quick' else 1500)   # generous: SAT times of one query swung by 10x between textually identical runs
         gb1 = os.path.join(qdir, 'a.gb'); gb2 = os.path.join(qdir, 'b.gb')
         rc, so, se, dt = run(['goto-cc', '-I' + SHIMS] + list(uspec.cflags) + [subst(f, vars_) for f in q.cflags] + ['--function', 'harness', cfile, '-o', gb1], 120)
         if rc != 0:
